@@ -17,9 +17,10 @@ import (
 
 // fakeConn is the far end: it records what it is sent and serves scripted fragments.
 type fakeConn struct {
-	got   []byte
-	in    [][]byte
-	calls int
+	got         []byte
+	in          [][]byte
+	calls       int
+	dataWithEOF bool
 }
 
 func (f *fakeConn) Read(p []byte) (int, error) {
@@ -31,6 +32,9 @@ func (f *fakeConn) Read(p []byte) (int, error) {
 		f.in[0] = f.in[0][n:]
 	} else {
 		f.in = f.in[1:]
+	}
+	if f.dataWithEOF && len(f.in) == 0 {
+		return n, io.EOF
 	}
 	return n, nil
 }
@@ -91,6 +95,22 @@ func runWrites(c wcase) (state string, key, msg string) {
 			}
 			scribble(a) // the channel's sender recycles its packets right after Writev and flushes later
 			scribble(b)
+		case "m": // a vector of o.A one- and two-byte slices (the async sender merges up to queue/2+1 packets into one vector)
+			var vec transport.Buffers
+			total := 0
+			for k := 0; k < o.A; k++ {
+				b := fill(&seq, 1+k%2)
+				want = append(want, b...)
+				vec = append(vec, b)
+				total += len(b)
+			}
+			n, err := t.Writev(append(transport.Buffers{}, vec...))
+			if err != nil || n != int64(total) {
+				return "", "writev-result", fmt.Sprintf("%+v: op %d Writev(%d slices, %d bytes) returned (%d,%v)", c, i, o.A, total, n, err)
+			}
+			for _, b := range vec {
+				scribble(b)
+			}
 		case "f":
 			if err := t.Flush(); err != nil {
 				return "", "flush-result", fmt.Sprintf("%+v: op %d Flush returned %v", c, i, err)
@@ -139,7 +159,7 @@ func writeSeqs(name string, depth int, bufs []int) *explore.Scenario {
 						ops = append(ops, wop{Kind: "v", A: a, B: b})
 					}
 				}
-				ops = append(ops, wop{Kind: "f"})
+				ops = append(ops, wop{Kind: "m", A: 17}, wop{Kind: "m", A: 33}, wop{Kind: "f"})
 				var rec func(cur []wop)
 				rec = func(cur []wop) {
 					if len(cur) > 0 {
@@ -199,6 +219,9 @@ type rcase struct {
 	N     int   `json:"stream_len"`
 	Cuts  int   `json:"cuts"`  // bit i set: fragment boundary after byte i
 	Reads []int `json:"reads"` // caller read sizes, cycled
+	// DataWithEOF: the connection returns its last fragment together with io.EOF (as crypto/tls and many
+	// in-memory connections do)
+	DataWithEOF bool `json:"data_with_eof,omitempty"`
 }
 
 func runReads(c rcase) (string, string) {
@@ -206,7 +229,7 @@ func runReads(c rcase) (string, string) {
 	for i := range stream {
 		stream[i] = byte(i + 1)
 	}
-	conn := &fakeConn{}
+	conn := &fakeConn{dataWithEOF: c.DataWithEOF}
 	start := 0
 	for i := 0; i < c.N; i++ {
 		if i == c.N-1 || c.Cuts>>i&1 == 1 {
@@ -250,12 +273,14 @@ func readSide(n int) *explore.Scenario {
 								if c.Expired() {
 									return
 								}
-								rc := rcase{r, w, ln, cuts, pat}
-								k, m := runReads(rc)
-								c.Case(fmt.Sprint(r, w, ln, cuts, pat), true, func() any { return rc })
-								c.Count(0, 1)
-								if k != "" {
-									c.Fail(k+variant(r, w), m, rc)
+								for _, dwe := range []bool{false, true} {
+									rc := rcase{r, w, ln, cuts, pat, dwe}
+									k, m := runReads(rc)
+									c.Case(fmt.Sprint(r, w, ln, cuts, pat, dwe), true, func() any { return rc })
+									c.Count(0, 1)
+									if k != "" {
+										c.Fail(k+variant(r, w), m, rc)
+									}
 								}
 							}
 						}
@@ -265,7 +290,7 @@ func readSide(n int) *explore.Scenario {
 						for a := 1; a < ln; a++ {
 							for b := a; b < ln; b += 7 {
 								for _, pat := range patterns {
-									rc := rcase{r, w, ln, 1<<(a-1) | 1<<(b-1), pat}
+									rc := rcase{r, w, ln, 1<<(a-1) | 1<<(b-1), pat, (a+b)%2 == 1}
 									k, m := runReads(rc)
 									c.Case(fmt.Sprint("L", r, w, ln, a, b, pat), true, nil)
 									c.Count(0, 1)
